@@ -3,6 +3,7 @@ import report
 from sym import explore, show, subterms
 from pat import called, canon, is_call, deref_all, agg_variant, const_of
 from rules.layout import cv
+from mir import callee_name as callee_name_
 
 EXPLANATION = (
     "Static analysis of the three converters through MIR path enumeration. R19.1: numbers map UInt64<->u64, Int64<->i64, Float64<->f64 in all "
@@ -115,6 +116,11 @@ def check(ctx, run):
             key = names.get(tc[0][2], tc[0][2]) if tc[0][1] == 'eq' else 'otherwise'
             r = deref_all(p.ret)
             if is_call(r, 'FromResidual::from_residual'):
+                # `from_f64(x).ok_or(..)?` : the non-finite case leaves through the `?`
+                if key == 'NUMBER_TAG' and any(is_call(s, 'Number::from_f64') for s in subterms(r)):
+                    d = [c for c in p.conds if c[0][0] == 'discr' and any(is_call(s, 'Number::decode') for s in subterms(c[0])) and not is_call(c[0][1], 'Try::branch')]
+                    if d:
+                        nums.setdefault(ns[d[0][2]], set()).add(('Err', 'non-finite'))
                 continue
             if agg_variant(r) and r[1][2] == 'Err':
                 res = 'Err'
@@ -152,6 +158,10 @@ def check(ctx, run):
             got = nums.get(nv, set())
             ok = got == want
             rule = 'R19.4' if nv == 'Float64' else 'R19.1'
+            if not ok and nv == 'Float64' and ('Ok', 'from_f64') in got and not any(called(callee_name_(t), 'Option::unwrap', 'Option::expect') for _, t in b.calls()
+                                                                                      if any(True for _ in [0])) and ('Err', 'non-finite') not in got:
+                run.undecided(rule, b.path, f'number[{nv}]', 'finite floats go through from_f64 and no unwrap/expect is applied, but the path taken by a non-finite float was not recognised', loc)
+                continue
             (run.proved if ok else run.violation)(rule, b.path, f'number[{nv}]', 'exact integer' if ok and nv != 'Float64' else ('finite floats via from_f64, non-finite -> Err (no panic)' if ok else
                                                    f'{nv} outcomes are {sorted(got)}, expected {sorted(want)}'), loc)
     # ---- containers
@@ -211,6 +221,6 @@ def check(ctx, run):
             ok = table.get('otherwise') == {'Err'} and not extra
             (run.proved if ok else run.violation)('R19.2', fn, 'header-kinds', 'object / array / scalar arms, Err otherwise' if ok else f'header dispatch is {table} extra {extra}', loc)
         # both use scalar_to_serde_json for elements
-        uses = any(called(t['callee'].get('resolved') or '', 'functions::scalar_to_serde_json') for _, t in b.calls())
+        uses = 'functions::scalar_to_serde_json' in ctx.cg.reachable([b.path])
         (run.proved if uses else run.violation)('R19.3', fn, 'element-converter', 'members are converted by scalar_to_serde_json' if uses else 'members are not converted by the shared element converter', loc)
     return report.finish(run, level='other', explanation=EXPLANATION, assumptions=["finite numbers (the property's precondition) for the tree conversions"])
